@@ -185,6 +185,13 @@ func (c *Clock) InFlight(t *Timer) bool {
 	return false
 }
 
+// AllTimers lists every timer ever created, in creation order.
+func (c *Clock) AllTimers() []*Timer {
+	c.mu.Lock()
+	defer c.mu.Unlock()
+	return append([]*Timer(nil), c.timers...)
+}
+
 // ArmedTimers lists the armed timers.
 func (c *Clock) ArmedTimers() []*Timer {
 	c.mu.Lock()
